@@ -65,8 +65,14 @@ def gen_options(cls: str, rng) -> Dict[str, Any]:
         o = {"in_channels": ci * groups, "out_channels": co * groups, "kernel_size": rng.choice([1, 2, 3, 5]), "stride": rng.choice([1, 1, 2, 3]),
              "padding": rng.choice([0, 0, 1, 2]), "dilation": rng.choice([1, 1, 2]), "groups": groups, "bias": rng.random() < 0.5,
              "padding_mode": rng.choice(["zeros", "zeros", "reflect", "replicate", "circular"]), "constraint": rng.choice(BINARY)}
-        if rng.random() < 0.06:
+        r = rng.random()
+        if r < 0.06:
             o.update(padding="same", stride=1, __reject__=True)
+        elif r < 0.12:
+            # torch.nn.Conv1d also takes 1-tuples; the library documents ints: honour the tuple or refuse it at construction
+            name = rng.choice(["stride", "dilation", "padding"])
+            o[name] = [o[name]]
+            o.update(__reject__=True, __tuple_opt__=name)
     elif cls == "LayerNorm":
         o = {"normalized_shape": rng.choice([[7], [3, 5], 6, [7], [3, 5], 6, [1], [2]]), "eps": rng.choice([1e-5, 1e-3, 0.1]), "elementwise_affine": rng.random() < 0.6,
              "bias": rng.random() < 0.6}
@@ -144,6 +150,8 @@ def build(cls: str, opts: Dict[str, Any], uu, torch):
         kw["weight"] = torch.ones(5, dtype=torch.float64)
     if cls in ("Linear", "LinearReadout", "Conv1d", "LayerNorm", "Embedding"):
         kw["dtype"] = torch.float64
+    if opts.get("__tuple_opt__"):
+        kw[opts["__tuple_opt__"]] = tuple(kw[opts["__tuple_opt__"]])
     if "residual_scaling" in kw:
         kw["residual_scaling"] = _residual_fn(kw["residual_scaling"])
     m = getattr(uu, cls)(**kw)
@@ -162,7 +170,8 @@ def make_input(cls: str, opts: Dict[str, Any], lead: int, gen, torch, m):
     if cls in ("Linear", "LinearReadout"):
         return (rn(*(lead_shape + [opts["in_features"]])),)
     if cls == "Conv1d":
-        k, d, p = opts["kernel_size"], opts["dilation"], opts["padding"] if isinstance(opts["padding"], int) else 0
+        first = lambda v: v[0] if isinstance(v, (list, tuple)) else v
+        k, d, p = opts["kernel_size"], first(opts["dilation"]), first(opts["padding"]) if not isinstance(opts["padding"], str) else 0
         L = d * (k - 1) + 1 + 6
         if opts["padding_mode"] in ("reflect", "circular"):
             L = max(L, p + 2)
@@ -390,7 +399,23 @@ def run_case(case: Dict[str, Any], ctx) -> None:
     if reject:
         # accepted at construction although unsupported: it must then at least be honoured; a failure in forward() is a late rejection
         bad_opt = sorted(k for k in opts if not k.startswith("__") and k in ("inplace", "padding", "scale_grad_by_freq", "sparse", "label_smoothing", "weight",
-                                                                             "reduction", "size_average"))
+                                                                             "reduction", "size_average") or k == opts.get("__tuple_opt__"))
+        if opts.get("__tuple_opt__"):
+            try:
+                a1 = fresh_args()
+                y_t = m(*a1)
+            except Exception as e:
+                ctx.violation(f"{key}:late-rejection:{opts['__tuple_opt__']}-as-1-tuple", f"accepted at construction, fails only in forward(): {e!r}", opts=opts)
+                return
+            o2 = {k: (v[0] if k == opts["__tuple_opt__"] else v) for k, v in opts.items() if not k.startswith("__")}
+            m2 = build(cls, o2, uu, torch)
+            m2.load_state_dict(m.state_dict())
+            m2.train(case["training"])
+            y_i = m2(*fresh_args())
+            ctx.count("reject:1-tuple-honoured")
+            if tuple(y_t.shape) != tuple(y_i.shape) or not bits_equal(y_t.detach(), y_i.detach()):
+                ctx.violation(f"{key}:1-tuple-option-computes-something-else:{opts['__tuple_opt__']}", "accepted, but differs from the same module built with the int", opts=opts)
+            return
         try:
             a1 = fresh_args()
             m(*a1)
